@@ -263,6 +263,9 @@ class Interp:
         self.tops = []          # (reason, span)
         self.casts = []         # narrowing casts met: (from, to, term, span, fits)
         self.guards = []        # (cond term, span, 'assert'|'panic-arm')
+        self.visited_casts = set()   # spans of every int cast evaluated
+        self.visited_arith = set()   # spans of every + - * << evaluated
+        self.arith_sites = []        # arithmetic whose mathematical result may leave the type's range
         self.log = []           # ordered events: ('guard', cond, sp) / ('mutate', what, sp)
         self.calls_seen = []    # inlined callee defs
         self.fresh = 0
@@ -893,6 +896,7 @@ class Interp:
         return self.eval(e['arg'])
 
     def e_Cast(self, e):
+        self.visited_casts.add(e.get('sp'))
         v = self.eval(e['arg'])
         to = norm_ty(e['ty']); frm = norm_ty(e['from'])
         if isinstance(v, EnumV):
@@ -907,11 +911,11 @@ class Interp:
         lo, hi = rng(v)
         if tb >= 64 and lo >= 0 and hi >= (1 << tb):
             # usize/u64 byte totals and counts: bounded by addressable memory (informational, DESIGN C18)
-            self.casts.append({'from': frm, 'to': to, 'term': v, 'sp': e.get('sp'), 'fits': True, 'capacity': True, 'mac': e.get('mac')})
+            self.casts.append({'from': frm, 'to': to, 'term': v, 'sp': e.get('sp'), 'fits': True, 'capacity': True, 'mac': e.get('mac'), 'fn': self.frame().d, 'facts': [c for c, _ in self.st.facts], 'expr': _pe(e['arg'])})
             return v
         fits = lo >= 0 and hi < (1 << tb)
         if fb is None or tb < (fb or 0) or isinstance(v, tuple) and not fits:
-            self.casts.append({'from': frm, 'to': to, 'term': v, 'sp': e.get('sp'), 'fits': fits, 'mac': e.get('mac')})
+            self.casts.append({'from': frm, 'to': to, 'term': v, 'sp': e.get('sp'), 'fits': fits, 'mac': e.get('mac'), 'fn': self.frame().d, 'facts': [c for c, _ in self.st.facts], 'expr': _pe(e['arg'])})
         return trunc(v, tb)
 
     def e_Unary(self, e):
@@ -936,6 +940,14 @@ class Interp:
                 if c is not None: return c if op == 'Eq' else bnot(c)
             return self.top('arith %s on %r, %r' % (op, a, b), e)
         bits = int_bits(norm_ty(ty)) if ty else None
+        if op in ('Add', 'Sub', 'Mul') and bits:
+            r = add(a, b) if op == 'Add' else sub(a, b) if op == 'Sub' else mul(a, b)
+            self.visited_arith.add(e.get('sp') if isinstance(e, dict) else None)
+            lo, hi = rng(r)
+            if (lo < 0 if op == 'Sub' else hi >= (1 << bits)):
+                self.arith_sites.append({'op': op, 'ty': norm_ty(ty), 'term': r, 'lhs': a, 'rhs': b, 'sp': e.get('sp') if isinstance(e, dict) else None, 'fn': self.frame().d,
+                                         'lo': lo, 'hi': hi, 'facts': [c for c, _ in self.st.facts], 'expr': _pe(e) if isinstance(e, dict) else ''})
+            return r
         if op in ('Add', 'AddUnchecked', 'AddWithOverflow'): return add(a, b)
         if op in ('Sub',): return sub(a, b)
         if op == 'Mul': return mul(a, b)
@@ -1450,6 +1462,14 @@ class Interp:
         if isinstance(obj, SeqV): return strip_refs(norm_ty(e['args'][0]['ty']))
         return None
 
+
+def _pe(e):
+    try:
+        import pp
+        s = pp.pe(e)
+        return re.sub(r'\s+', ' ', s)[:100]
+    except Exception:
+        return '?'
 
 def strip_one_ref(t):
     if t.startswith('&mut '): return t[5:]
